@@ -72,7 +72,7 @@ where
     PointType: HasMutXY + Default,
     T: Read,
 {
-    let mut points = Vec::<PointType>::with_capacity(num_points as usize);
+    let mut points = Vec::<PointType>::new();
     for _ in 0..num_points {
         let mut p = PointType::default();
         *p.x_mut() = source.read_f64::<LittleEndian>()?;
@@ -106,7 +106,7 @@ pub(crate) fn read_parts<T: Read>(
     source: &mut T,
     num_parts: i32,
 ) -> Result<Vec<i32>, std::io::Error> {
-    let mut parts = Vec::<i32>::with_capacity(num_parts as usize);
+    let mut parts = Vec::<i32>::new();
     for _ in 0..num_parts {
         parts.push(source.read_i32::<LittleEndian>()?);
     }
@@ -202,7 +202,7 @@ impl<'a, PointType: Default + HasMutXY, R: Read> MultiPartShapeReader<'a, PointT
         let num_parts = source.read_i32::<LittleEndian>()?;
         let num_points = source.read_i32::<LittleEndian>()?;
         let parts_array = read_parts(source, num_parts)?;
-        let parts = Vec::<Vec<PointType>>::with_capacity(num_parts as usize);
+        let parts = Vec::<Vec<PointType>>::new();
         Ok(Self {
             num_points,
             num_parts,
